@@ -378,11 +378,19 @@ def tok_rules(repo, tier="quick"):
     else:
         test, body, node = T.branches[sl.pop()]
         keys = set()
+        conditional = set()
         for st in body:
             for sub in ast.walk(st):
                 if isinstance(sub, ast.Assign) and isinstance(sub.targets[0], ast.Subscript) and isinstance(sub.targets[0].value, ast.Name) and \
                         sub.targets[0].value.id == T.EZ and isinstance(sub.value, ast.Name) and sub.value.id == T.token and isinstance(sub.targets[0].slice, ast.Name):
                     keys.add(sub.targets[0].slice.id)
+                    if sub is not st:
+                        # the store sits inside a nested statement (if / loop / try) of the branch
+                        conditional.add(sub.targets[0].slice.id)
+        if keys == {T.COUNTER, T.PREV} and conditional:
+            obs.append(ob_fail("TOK.T6-slash", fi, node, construct="the mark for %s is stored only under a further condition" % sorted(conditional), instance="record:unconditional",
+                               reason="every slash marks the atom before it and the atom after it, whatever that atom looks like (bracket atom, "
+                                      "annotated atom, atom of the next fragment): a conditional store drops marks"))
         ok = keys == {T.COUNTER, T.PREV} and not T.text_appends(body)
         (obs.append(ob_ok("TOK.T6-slash", fi, node, construct="ez[counter] = ez[previous] = token; nothing appended", instance="record",
                           reason="a slash mark is recorded for the atom before and the atom after it and removed from the text")) if ok else
